@@ -19,6 +19,12 @@ inductive Instr
   | TESTQ (a b : Reg)
   | TESTW (imm : Nat) (r : Reg)
   | LEAQ (disp : Int) (base : Reg) (dst : Reg)
+  | LEAQx (disp : Int) (base idx : Reg) (dst : Reg)   -- LEAQ disp(base)(idx*1), dst
+  | ADDQi (imm : Nat) (dst : Reg)
+  | ADDQ (src dst : Reg)
+  | CMPQ (a b : Reg)
+  | MOVQrr (src dst : Reg)
+  | JB (l : String)
   | MOVOU (disp : Int) (base : Reg) (idx : Option Reg) (dst : XReg)
   | POR (src dst : XReg)
   | PAND (src dst : XReg)
@@ -84,6 +90,12 @@ def step (s : St) : Instr → Option (St × Option String)
   | .TESTQ a b => let v := s.r a &&& s.r b; some ({ s with zf := v == 0, cf := false }, none)
   | .TESTW imm r => let v := (imm &&& s.r r) % 65536; some ({ s with zf := v == 0, cf := false }, none)
   | .LEAQ d b dst => some (setR s dst (addr s d b none), none)
+  | .LEAQx d b i dst => some (setR s dst (addr s d b (some i)), none)
+  | .ADDQi imm dst => let v := (s.r dst + imm % W64) % W64; some ({ setR s dst v with zf := v == 0 }, none)
+  | .ADDQ src dst => let v := (s.r dst + s.r src) % W64; some ({ setR s dst v with zf := v == 0 }, none)
+  | .CMPQ a b => some ({ s with zf := s.r a == s.r b, cf := decide (s.r a < s.r b) }, none)
+  | .MOVQrr src dst => some (setR s dst (s.r src), none)
+  | .JB l => some (s, if s.cf then some l else none)
   | .MOVOU d b i dst =>
     let a := addr s d b i
     some ({ setX s dst (fun j => s.mem (a + j)) with loads := s.loads ++ [(a, 16)] }, none)
@@ -122,10 +134,12 @@ def step (s : St) : Instr → Option (St × Option String)
 
 abbrev Prog := List (String × List Instr)
 
-def block (p : Prog) (l : String) : List Instr := (p.lookup l).getD []
+/-- the instructions from label `l` to the end of the program text (execution falls through into the following labels) -/
+def block : Prog → String → List Instr
+  | [], _ => []
+  | (l', is) :: rest, l => if l' == l then is ++ (rest.map (·.2)).flatten else block rest l
 
-/-- run a block; a jump continues at the start of the target block; falling off the end of a block stops
-    (the regenerated small-path programs end every block with `RET`) -/
+/-- run from a point of the program text; a jump continues at the target label; the end of the text stops -/
 def run (p : Prog) : Nat → List Instr → St → St
   | 0, _, s => s
   | _, [], s => s
